@@ -5,7 +5,7 @@
    call) and Adv d; `mono` = the clock never goes backwards. *)
 From DV Require Import Base.Prelude Model.CacheM.
 From DV Require Import Proofs.CacheRing Proofs.CacheDict Proofs.CacheLru Proofs.CacheSpec
-  Proofs.CacheThm Proofs.CacheSimple Proofs.CacheBasic Proofs.CacheWalk Proofs.CacheConc.
+  Proofs.CacheThm Proofs.CacheSimple Proofs.CacheBasic Proofs.CacheWalk Proofs.CacheConc Proofs.CacheOrder.
 
 (* ---- never stale: a lookup returns an answer only if its expiration is strictly later than the
    last clock reading of that lookup (any state, any clock) *)
@@ -158,6 +158,16 @@ Theorem linearization_point_inside_call : forall s t0 ls cf t,
 Proof. exact (thread_protocol lru_step). Qed.
 Print Assumptions linearization_point_inside_call.
 
+(* real-time order, positionally: when a call returns, the same call was invoked earlier, its
+   body ran in between and the thread did nothing else in between *)
+Theorem body_between_invocation_and_response : forall s t0 ls cf pre t c r post,
+  exec lru_step (init_conf s t0) ls cf -> ls = pre ++ LRes t c r :: post ->
+  exists p1 p2 p3 ds,
+    pre = p1 ++ LInv t c :: p2 ++ LBody t c ds :: p3 /\
+    (forall x, In x p2 -> ~ call_event t x) /\ (forall x, In x p3 -> ~ call_event t x).
+Proof. exact (body_within_call lru_step). Qed.
+Print Assumptions body_between_invocation_and_response.
+
 (* consequences for the LRUCache under concurrency: the bound holds in every reachable
    configuration, and no method body can raise *)
 Theorem conc_lru_bound : forall m t0 c0 ls cf,
@@ -235,3 +245,15 @@ Example ex_conc :
   | _ => False
   end.
 Proof. vm_compute. repeat split. Qed.
+
+(* the code before the fix (set_max_size only stored the limit): the bound failed *)
+Definition old_set_max (st : lru) (m : Z) : lru :=
+  mkLru (l_store st) (l_dict st) (if m <? 1 then 1 else m) (l_hits st) (l_miss st) (l_fresh st).
+
+Example old_set_max_size_broke_the_bound :
+  match wrun lru_step [Call (Put 1 (mkAns 1 50)) []; Call (Put 2 (mkAns 2 50)) []; Call (Put 3 (mkAns 3 50)) []]
+             (mkLru [(sentinel, mkNode None None 0 sentinel sentinel)] [] 3 0 0 1%nat, 0) with
+  | Ok (_, (c, _)) => zlen (l_dict (old_set_max c 1)) = 3 /\ l_max (old_set_max c 1) = 1
+  | _ => False
+  end.
+Proof. vm_compute. split; reflexivity. Qed.
